@@ -16,7 +16,7 @@ import (
 // C11 — built-in functions meet their contracts, are pure and keep UTF-8 valid.
 
 type c11Case struct {
-	Mode  string `json:"mode"`            // call | pure | precedence | site
+	Mode  string `json:"mode"`            // call | pure | precedence | site | same-value | held
 	Recv2 Val    `json:"recv2,omitempty"` // site: the second receiver reaching the same call site
 	Recv  Val    `json:"recv"`
 	Fn    string `json:"fn"`
@@ -279,6 +279,28 @@ func c11Check(cs c11Case) (ok bool, sig, expected, observed string) {
 		parts := strings.Split(o.Out, "|")
 		if len(parts) != 3 || parts[0] != parts[1] || parts[0] == parts[2] {
 			return false, "contains-depends-on-how-the-value-was-built", expected, o.String()
+		}
+		return true, "", expected, o.String()
+	case "held":
+		// the result of one call is held in a variable while the same function answers for another receiver:
+		// both results must read as they do when each call is made alone
+		argSrc := litArgs(cs.Args)
+		one := func(rv Val) Outcome {
+			return runString("{{ h = x."+cs.Fn+"("+argSrc+") }}{{ h }}", dataMap(map[string]Val{"x": rv}))
+		}
+		o1, o2 := one(cs.Recv), one(cs.Recv2)
+		if o1.Kind != KOut || o2.Kind != KOut {
+			return true, "", "skipped", ""
+		}
+		src := "{{ h = a." + cs.Fn + "(" + argSrc + ") }}{{ k = b." + cs.Fn + "(" + argSrc + ") }}[{{ h }}|{{ k }}|{{ h }}]"
+		o := runString(src, dataMap(map[string]Val{"a": cs.Recv, "b": cs.Recv2}))
+		want := "[" + o1.Out + "|" + o2.Out + "|" + o1.Out + "]"
+		expected = fmt.Sprintf("Value(%q) for %s (each call made alone gives these results)", want, strconvQuote(src))
+		if o.Kind == KPanic || o.Kind == KHang {
+			return false, o.Kind + "@" + o.Site, expected, o.String()
+		}
+		if o.Kind != KOut || o.Out != want {
+			return false, "held-result-changed-by-a-later-call/" + cs.Recv.K + "." + cs.Fn, expected, o.String()
 		}
 		return true, "", expected, o.String()
 	case "site":
@@ -658,6 +680,48 @@ func c11Run(c *Ctx) {
 			}
 		}
 	}
+	// a held result next to a later call of the same function (random built-ins excluded)
+	heldRecv := map[string][]Val{
+		VStr:   {vStr("abc"), vStr("éa日"), vStr(" x y "), vStr("12")},
+		VArr:   {vArr(vInt(1), vInt(2), vInt(3)), vArr(vStr("a"), vStr("b")), vArr(vInt(5))},
+		VInt:   {vInt(5), vInt(123), vInt(-10)},
+		VFloat: {vFloat(1.5), vFloat(2.25), vFloat(-0.5), vFloat(3)},
+		VBool:  {vBool(true), vBool(false)},
+	}
+	for _, g := range groups {
+		if !c.Mine() {
+			continue
+		}
+		for _, fn := range c11Funcs[g.kind] {
+			if fn == "rand" || fn == "shuffle" {
+				continue
+			}
+			rs := heldRecv[g.kind]
+			for i, r1 := range rs {
+				for j, r2 := range rs {
+					if i == j {
+						continue
+					}
+					tuples := c11ArgTuples(fn, r1)
+					for ti, args := range tuples {
+						if ti > 5 {
+							break
+						}
+						special := false
+						for _, a := range args {
+							special = special || (a.K == VStr && strings.ContainsAny(a.S, "&<>\"'"))
+						}
+						if special {
+							continue
+						}
+						if !do(c11Case{Mode: "held", Recv: r1, Recv2: r2, Fn: fn, Args: args}, 0) {
+							return
+						}
+					}
+				}
+			}
+		}
+	}
 	// one call site, receivers of different types
 	siteRecv := []Val{vStr("abc"), vArr(vInt(1), vInt(2)), vInt(5), vFloat(2.5), vBool(true)}
 	var allFns []string
@@ -742,7 +806,7 @@ func init() {
 	p := &Property{
 		ID:    "C11",
 		Level: "exploration",
-		Rule: "bounded-exhaustive: every built-in x receivers (all strings of <=3/4 characters over {a B space é ß 日 ,} plus numeric strings; all arrays of <=3/4 elements over {1 2 \"a\" [1] {k: 1} nil}; boundary ints; floats around .5; booleans), receiver as literal and as data variable x all argument tuples of its domain (every index/count in -len-2..len+2, every (start,end) pair, separators, structural-equality probes) and every wrong-kind tuple of length <=2; every pair of calls on one receiver and chained on the first result (purity / aliasing); a custom function registered under each built-in name. " +
+		Rule: "bounded-exhaustive: every built-in x receivers (all strings of <=3/4 characters over {a B space é ß 日 ,} plus numeric strings; all arrays of <=3/4 elements over {1 2 \"a\" [1] {k: 1} nil}; boundary ints; floats around .5; booleans), receiver as literal and as data variable x all argument tuples of its domain (every index/count in -len-2..len+2, every (start,end) pair, separators, structural-equality probes) and every wrong-kind tuple of length <=2; every pair of calls on one receiver and chained on the first result (purity / aliasing); a custom function registered under each built-in name; held results: for every function and ordered pair of receivers of its type, the first result kept in a variable while the second call is made, both compared with the calls made alone. " +
 			"Independent Go reference per function; results also checked for valid UTF-8 and unchanged caller data. Non-trivial: the call has arguments, a multi-byte or array receiver, or is a purity/precedence case",
 		Bounds: func(tier string) map[string]any {
 			if tier == "thorough" {
